@@ -14,7 +14,7 @@ def work(clone):
     while True:
         try: sd = q.get_nowait()
         except queue.Empty: return
-        subprocess.run(["python3", os.path.join(clone, "tools", "try_seed.py"), sd] + extra, capture_output=True, text=True)
+        pr = subprocess.run(["python3", os.path.join(clone, "tools", "try_seed.py"), sd] + extra, capture_output=True, text=True)
         try:
             d = json.load(open(os.path.join(sd, "result.json")))
             with lock:
@@ -26,6 +26,6 @@ def work(clone):
                     print("   demo_tail:", (d.get("demo_tail") or "")[-300:], "| suite_tail:", (d.get("suite_tail") or "")[-300:])
                 sys.stdout.flush()
         except Exception as e:
-            with lock: print("== %s ERROR %s" % (sd, e))
+            with lock: print("== %s ERROR %s\n%s" % (sd, e, (pr.stdout + pr.stderr)[-800:]))
 ts = [threading.Thread(target=work, args=(c,)) for c in pool]
 [t.start() for t in ts]; [t.join() for t in ts]
